@@ -310,18 +310,8 @@ impl Property for C12 {
                     );
                     if arc_member6(&lim.from, &lim.to, &w.joints, 1e-9) == Verdict::Out {
                         let v = viol!("every waypoint is within joint limits", "waypoint {} of {}: {:?} limits {:?}..{:?}; start {:?}", i, path.len(), w, lim.from, lim.to, s.start);
-                        // Known finding: RRT moves (onboarding, gap closing) are planned towards an IK solution given in a representative
-                        // shifted by a whole turn (numerically outside [from,to] although compliant modulo 2 pi); the joint-space move then
-                        // crosses the forbidden arc. Signature: the violating waypoint is RRT-produced (ONBOARDING or, in a gap-closed plan,
-                        // not LIN_INTERP) and the same path contains an IK-derived waypoint in such a shifted representative.
-                        let shifted = |x: &AnnotatedJoints| (0..6).any(|k| (x.joints[k] < lim.from[k] - 1e-9 || x.joints[k] > lim.to[k] + 1e-9) && arc_member(lim.from[k], lim.to[k], x.joints[k], 1e-9) == Verdict::In);
-                        let path_has_shifted = path.iter().any(|x| shifted(x));
-                        let rrt_node = flags_of(w).contains(PathFlags::ONBOARDING) || flags_of(w).is_empty() || (!flags_of(w).contains(PathFlags::LIN_INTERP) && !flags_of(w).contains(PathFlags::LAND));
-                        if rrt_node && path_has_shifted {
-                            ctx.known_or("C12-onboarding-crosses-limits", v)?;
-                        } else {
-                            return Err(v);
-                        }
+                        // (defect 19, repaired by 44cce5f: joint-space moves towards IK answers a whole turn outside the numeric window crossed the forbidden arc)
+                        return Err(v);
                     }
                 }
                 // (2) the path leads from the given start configuration ...
@@ -499,6 +489,21 @@ impl Property for C12 {
             wide.mode = 0;
             let wide = wide.build();
             for sol in &sols {
+                // the planner brings IK answers given a whole turn outside the numeric window into it before moving there in joint space
+                let sol = &{
+                    let mut q = *sol;
+                    for k in 0..6 {
+                        if lim.from[k] < lim.to[k] {
+                            while q[k] > lim.to[k] && q[k] - 2.0 * PI >= lim.from[k] {
+                                q[k] -= 2.0 * PI;
+                            }
+                            while q[k] < lim.from[k] && q[k] + 2.0 * PI <= lim.to[k] {
+                                q[k] += 2.0 * PI;
+                            }
+                        }
+                    }
+                    q
+                };
                 let rt = match reference_trace(robot, sol, &originals, c.check_step_m, c.check_step_deg.to_radians(), max_cost, &coeffs, c.depth as usize) {
                     Some(t) => t,
                     None => continue,
@@ -506,7 +511,7 @@ impl Property for C12 {
                 if rt.iter().any(|q| robot.collides(q)) {
                     continue;
                 }
-                // limits: shifted representatives may make the onboarding cross the limits (known finding): require numeric containment
+                // a landing solution that has no representative inside the numeric window is not counted
                 if (0..6).any(|k| sol[k] < lim.from[k] || sol[k] > lim.to[k]) {
                     continue;
                 }
